@@ -127,7 +127,7 @@ def w_enum(acc, L, prefix):
     harness.run_cases(acc, "split", o_split, it, distinct_by_construction=True)
 
 
-FRAMES = ["x and {%s and y} and z", "x and %s and z", "{%s} and z", "%s and {y and z}", "Ab~%s and y"]
+FRAMES = ["x and {%s and y} and z", "x and %s and z", "{%s} and z", "%s and {y and z}", "Ab~%s and y", "x\r\nand\r%s and z", "x\xa0and %s\xa0and\xa0z"]
 
 
 def w_frames(acc, L, prefix):
@@ -160,10 +160,11 @@ def _strategies():
     word = st.one_of(
         st.sampled_from(["Ab", "Knuth", "von", "de", "la", "{Simon and Schuster}", "{and}", "M.", "Jr", "\\'Etienne",
                          "Vign{\\'e}", "and", "And", "AND", "aNd", "an", "d", "band", "andy", "Anders", "{x{y}z}", "a\\nd",
-                         "\\and", "and\\", "~", "x~and~y", "é", "ß", "A-B", "O'Neil", "\\ ", "\\\\"]),
+                         "\\and", "and\\", "~", "x~and~y", "é", "ß", "A-B", "O'Neil", "\\ ", "\\\\",
+                         "\xa0and\xa0", "x\xa0y", "a\x0band", "\u2003and\u2003", "AND", "ａｎｄ", "ÀND", "and\x0c"]),
         st.text(alphabet="abAB.-'", min_size=1, max_size=5),
     )
-    sep_in_name = st.sampled_from([" ", " ", " ", ", ", "~", "  ", "\t", "\n"])
+    sep_in_name = st.sampled_from([" ", " ", " ", ", ", "~", "  ", "\t", "\n", "\r\n", "\r", "\xa0"])
 
     @st.composite
     def name(draw):
@@ -174,7 +175,7 @@ def _strategies():
             out += draw(sep_in_name) + w
         return out
 
-    and_tok = st.sampled_from([" and ", " and ", " AND ", " And ", "  and\t", "\nand\n", " and  ", " aNd "])
+    and_tok = st.sampled_from([" and ", " and ", " AND ", " And ", "  and\t", "\nand\n", " and  ", " aNd ", "\r\nand\r\n", " and\r", "\xa0and ", " and\xa0", "\x0band "])
     noise = st.sampled_from(tokens.SIGMA_A)
 
     @st.composite
